@@ -26,6 +26,15 @@ CHARGED = {'S:Sz': ('Sp', 'Sz'), 'S1:Sz': ('Sp', 'Sz'), 'S:None': ('Sigmax', 'Si
 INF_CELLS = [(1, 2), (2, 2), (1, 3), (3, 2)]  # (unit cell, maximal reach of a term)
 
 
+def inf_cells(chain, tier, kind):
+    """(unit cell, reach) of the infinite MPOs of one kind of check; the spin-1 chain only with small windows."""
+    if tier == 'quick':
+        return INF_CELLS if kind == 'inf' else INF_CELLS[:2]
+    if chain == 'S1:Sz':
+        return [c for c in INF_CELLS if c[0] != 2] if kind == 'inf' else []
+    return INF_CELLS if kind != 'pair' else INF_CELLS[:3]
+
+
 def rng_for(seed, *key):
     return np.random.default_rng([seed] + [int(k) for k in key])
 
@@ -83,7 +92,7 @@ def cases(kind, tier, seed):
     if kind == 'ops':
         for ci, chain in enumerate(chains(tier)):
             for L in lengths(chain, tier, (2, 3, 4), (2, 3, 4, 5)):
-                for fam, spec in family(chain, L, seed, ci, pairs=L <= (3 if q else 4)):
+                for fam, spec in family(chain, L, seed, ci, pairs=L <= 3 or L == 4 and not q and chain in ('S:Sz', 'F:N')):
                     if L < 5 or fam.startswith('single') or fam == 'all-groups':
                         yield dict(spec=spec, seed=seed, family=fam)
     elif kind == 'pair':
@@ -102,10 +111,12 @@ def cases(kind, tier, seed):
                     pairs = [itertools.product(herm, herm), itertools.product(std, big), itertools.product(big, std), itertools.product(herm, noid), itertools.product(noid, herm)]
                     pairs += [itertools.product(x, x[:3] + x[-1:]) for x in (noid, hc, ch)] + [itertools.product(hc[-3:], std[-3:]), itertools.product(std[-3:], hc[-3:])]
                 else:
-                    pairs = [itertools.product(x, y) for x, y in ((std, std), (std, noid), (noid, std), (noid, noid), (hc, hc), (ch, ch), (hc[-3:], std), (std, hc[-3:]))]
+                    pairs = [itertools.product(x, y) for x, y in ((std, std), (hc, hc), (ch, ch), (hc[-3:], std), (std, hc[-3:]))]
+                    if L < 4 or chain in ('S:Sz', 'F:N'):
+                        pairs += [itertools.product(x, y) for x, y in ((std, noid), (noid, std), (noid, noid))]
                 for a, b in itertools.chain(*pairs):
                     yield dict(spec1=a, spec2=b, seed=seed, propagators=b in big or not q)
-            for L, reach in (INF_CELLS[:2] if q else INF_CELLS):
+            for L, reach in inf_cells(chain, tier, 'pair'):
                 fam = list(family(chain, L, seed, ci, pairs=False, bc='infinite', reach=reach))
                 std = [s for f, s in fam if f in ('single', 'single-nonhermitian', 'all-groups-complex')]
                 for a, b in itertools.product(std, std if (L == 1 or not q) else std[:2] + std[-2:]):
@@ -115,10 +126,10 @@ def cases(kind, tier, seed):
                         yield dict(spec1=dict(a, **({'max_range': m1} if m1 else {})), spec2=dict(b, **({'max_range': m2} if m2 else {})), seed=seed, default_window=True)
     elif kind == 'partition':
         for ci, chain in enumerate(chains(tier)):
-            todo = [(L, 'finite', None) for L in lengths(chain, tier, (3, 4), (2, 3, 4, 5))] + [(L, 'infinite', reach) for L, reach in (INF_CELLS[:2] if q else INF_CELLS)]
+            todo = [(L, 'finite', None) for L in lengths(chain, tier, (3, 4), (2, 3, 4, 5))] + [(L, 'infinite', reach) for L, reach in inf_cells(chain, tier, 'partition')]
             for L, bc, reach in todo:
                 fam = dict((f, s) for f, s in family(chain, L, seed, ci, pairs=False, bc=bc, reach=reach))
-                for name in ('all-groups-complex',) if q else ('all-groups', 'all-groups-complex'):
+                for name in ('all-groups-complex',) if q or L == 5 else ('all-groups', 'all-groups-complex'):
                     for k in range(len(fam[name]['terms'])):
                         for all_id in ((True, False) if bc == 'finite' else (True,)):
                             yield dict(spec=fam[name], k=k, all_id_single=all_id)
@@ -136,20 +147,20 @@ def cases(kind, tier, seed):
                        dict(kind='wavepacket', chain=chain, L=L, op=CHARGED[chain][0], coeff=[[0.3 * i + 0.2, 0.1 * i] for i in range(L)]),
                        dict(kind='wavepacket', chain=chain, L=L, op=CHARGED[chain][0], coeff=[[0.5, -0.2 * i] for i in range(1, L)] + [[0., 0.]]),
                        dict(kind='wavepacket', chain=chain, L=L, op=CHARGED[chain][0], coeff=[[0., 0.]] + [[0.5, -0.2 * i] for i in range(1, L)])]
-                if q and L == 4:
+                if L == (4 if q else 5):
                     ops = ops[:1] + ops[6:7] + ops[9:10]
                 for op, state, method in itertools.product(ops, range(4), ('naive', 'SVD', 'zip_up', 'variational', 'variationalQR')):
                     changes_charge = op['kind'] == 'wavepacket'
-                    if method.startswith('variational') and (state == 0 or changes_charge or op['spec'] is last):
-                        continue  # (a local optimiser needs a non-vanishing overlap of the guess with the result)
+                    if method.startswith('variational') and (state == 0 or changes_charge or op['spec'] is last or L == 2):
+                        continue  # (a local optimiser needs a non-vanishing overlap of the guess with the result; two-site sweeps need L > 2)
                     truncs = O.TRUNC if method == 'SVD' or not q else ('none', 'default', 'chi2') if method == 'zip_up' else ('none', 'chi2')
                     for trunc in (['none'] if method == 'naive' else truncs):
                         opts = dict(max_trunc_err=None) if method.startswith('variational') else {}
                         yield dict(op=op, state=state, method=method, trunc=trunc, options=opts, seed=seed)
     elif kind == 'inf':
         for ci, chain in enumerate(chains(tier)):
-            for L, reach in INF_CELLS:
-                for fam, spec in family(chain, L, seed, ci, pairs=(L, reach) == (1, 2) or not q and L < 3, bc='infinite', reach=reach):
+            for L, reach in inf_cells(chain, tier, 'inf'):
+                for fam, spec in family(chain, L, seed, ci, pairs=(L, reach) == (1, 2) or not q and (L, reach) == (2, 2), bc='infinite', reach=reach):
                     if q and (L, reach) in INF_CELLS[2:] and fam not in ('single', 'all-groups-complex', 'explicit_plus_hc'):
                         continue
                     yield dict(spec=spec, seed=seed, family=fam, Lpsi={1: [2, 3] if fam.startswith('all-groups') or not q else [2], 2: [2] if q else [2, 3], 3: [3]}[L])
@@ -172,10 +183,11 @@ def cases(kind, tier, seed):
 
 
 def units(tier, seed, label):
-    if label == 'PY':  # (pure-Python kernels: the quick enumeration as a reduced pass of the thorough tier)
-        tier = 'quick'
+    kinds = list(CHECKS)
+    if label == 'PY':  # (pure-Python kernels, a reduced pass of the thorough tier: the cheaper kinds of the quick enumeration)
+        tier, kinds = 'quick', ['partition', 'inf', 'wflat', 'infapply']
     us = []
-    for kind in CHECKS:
+    for kind in kinds:
         n = sum(1 for _ in cases(kind, tier, seed))
         us += [(kind, a, min(n, a + CHUNK[kind]), tier, seed) for a in range(0, n, CHUNK[kind])]
     return us
@@ -191,10 +203,11 @@ def run_case(kind, case):
 
 
 def nontrivial(kind, case):
-    """Cases in which the bond structure matters: bond dimension >= 3 somewhere and a term of range >= 2."""
+    """Cases in which the bond structure matters: a term of range >= 2 or at least 3 terms (bond dimension >= 3);
+    W-tensor MPOs have at least one middle state, wave packets a string of L >= 3 sites."""
     specs = [case[k] for k in ('spec', 'spec1', 'spec2') if k in case] + ([case['op']['spec']] if kind == 'apply' and 'spec' in case['op'] else [])
     if not specs:
-        return kind == 'wflat' and case['chi'] >= 1 or kind == 'apply'
+        return kind == 'wflat' or case['op']['L'] >= 3
     return any(U.spec_range(s) >= 2 or len(s['terms']) >= 3 for s in specs)
 
 
